@@ -175,7 +175,7 @@ theorem sim2_poslook_atomic {slot hi : Nat} {cm : Bool} {sm : St → List St} {a
           List.getElem?_set_self (by omega)]
       have hstep2 : sstep c prog nS m r.ix (unview r.slots ++ aux') ([] ++ X.length :: astk) (S ++ X) =
           some (.run (m + 1) st.ix (unview r.slots ++ aux') (X.length :: astk) (S ++ X)) := by
-        simp only [sstep, hrestore, hslot, ↓reduceIte, hget, List.nil_append]
+        simp only [sstep, hrestore, hslot, ↓reduceIte, hget, List.nil_append, hg.ix]
       apply Big2.step _ _ _ _ _ _ _ hstep2
       have hstep3 : sstep c prog nS (m + 1) st.ix (unview r.slots ++ aux') (X.length :: astk) (S ++ X) =
           some (.run (m + 2) st.ix (unview r.slots ++ aux') astk X) := by
@@ -228,7 +228,7 @@ theorem sim2_poslook_plain_all {slot hi : Nat} {bal cm : Bool} {sm : St → List
         List.getElem?_set_self (by omega)]
     have hstep2 : sstep c prog nS m r.ix (unview r.slots ++ aux') (junk ++ astk) (S ++ X) =
         some (.run (m + 1) st.ix (unview r.slots ++ aux') (junk ++ astk) (S ++ X)) := by
-      simp only [sstep, hrestore, hslot, ↓reduceIte, hget]
+      simp only [sstep, hrestore, hslot, ↓reduceIte, hget, hg.ix]
     apply Big2.step _ _ _ _ _ _ _ hstep2
     exact hs (l1.map fun r => { r with ix := st.ix }) { r with ix := st.ix } (l2.map fun r => { r with ix := st.ix })
       (by simp [hpos]) (Thru.map hthru) aux' junk S acc
